@@ -13,6 +13,8 @@
 #include <unordered_map>
 
 #ifndef CHAISCRIPT_NO_THREADS
+#include <atomic>
+#include <cstdint>
 #include <mutex>
 #include <shared_mutex>
 #include <thread>
@@ -58,29 +60,39 @@ namespace chaiscript::detail::threading {
   template<typename T>
   class Thread_Storage {
   public:
-    Thread_Storage() = default;
+    Thread_Storage()
+        : m_key(next_key()) {
+    }
     Thread_Storage(const Thread_Storage &) = delete;
     Thread_Storage(Thread_Storage &&) = delete;
     Thread_Storage &operator=(const Thread_Storage &) = delete;
     Thread_Storage &operator=(Thread_Storage &&) = delete;
 
-    ~Thread_Storage() { t().erase(this); }
+    ~Thread_Storage() { t().erase(m_key); }
 
-    inline const T *operator->() const noexcept { return &(t()[this]); }
+    inline const T *operator->() const noexcept { return &(t()[m_key]); }
 
-    inline const T &operator*() const noexcept { return t()[this]; }
+    inline const T &operator*() const noexcept { return t()[m_key]; }
 
-    inline T *operator->() noexcept { return &(t()[this]); }
+    inline T *operator->() noexcept { return &(t()[m_key]); }
 
-    inline T &operator*() noexcept { return t()[this]; }
+    inline T &operator*() noexcept { return t()[m_key]; }
 
-    void *m_key;
+    /// Identifies this object in every thread's storage. It is unique for the life of the process:
+    /// an address is not, a later object can be created where a destroyed one lived, and the
+    /// destructor can only erase the entry of the thread it runs on.
+    const std::uint64_t m_key;
 
   private:
+    static std::uint64_t next_key() noexcept {
+      static std::atomic<std::uint64_t> counter{0};
+      return ++counter;
+    }
+
     /// todo: is it valid to make this noexcept? The allocation could fail, but if it
     /// does there is no possible way to recover
-    static std::unordered_map<const void *, T> &t() noexcept {
-      static thread_local std::unordered_map<const void *, T> my_t;
+    static std::unordered_map<std::uint64_t, T> &t() noexcept {
+      static thread_local std::unordered_map<std::uint64_t, T> my_t;
       return my_t;
     }
   };
